@@ -3,6 +3,7 @@ package main
 import (
 	"fmt"
 	"go/token"
+	"go/types"
 	"strings"
 
 	"golang.org/x/tools/go/ssa"
@@ -231,6 +232,47 @@ func runC17(r *Run) {
 		// multi-valued headers: replay uses the additive setter
 		add := callsMatching(c.lookup, false, nameHasSuffix("fasthttp.ResponseHeader).Add"))
 		r.check(len(add) >= 1, "replay:headers-additive", r.fpos(c.lookup), "headers are replayed with Add (multi-valued headers survive)", "headers are replayed with a replacing setter: multi-valued headers collapse")
+	})
+
+	r.rule("R9", "a stored answer that cannot be read is a failed lookup, not a miss: in the lookup closure the error edge of Storage.Get and of the decoder leads to a non-nil error only (a miss would run the handler again and overwrite the stored answer) (E1, error discipline)", func() {
+		c := get()
+		lk := c.lookup
+		n := 0
+		for _, cs := range callsIn(lk, false) {
+			if !(strings.HasSuffix(cs.Name, "v3.Storage).Get") || strings.HasSuffix(cs.Name, ").UnmarshalMsg")) || cs.Value() == nil {
+				continue
+			}
+			var ev ssa.Value
+			if tup, ok := cs.Value().Type().(*types.Tuple); ok {
+				for _, ref := range *cs.Value().Referrers() {
+					if ex, ok := ref.(*ssa.Extract); ok && ex.Index == tup.Len()-1 {
+						ev = ex
+					}
+				}
+			}
+			if ev == nil {
+				r.bad(fmt.Sprintf("lookup:%s:error-is-an-error", short(cs.Name)), r.pos(cs.Instr), "the error of "+short(cs.Name)+" is not looked at")
+				continue
+			}
+			n++
+			swallowed := ""
+			for _, br := range ifsOnValue(lk, ev) {
+				sl, ok := br.nilSlot(false)
+				if !ok {
+					continue
+				}
+				isNilRet := func(in ssa.Instruction) bool {
+					ret, ok := in.(*ssa.Return)
+					return ok && ret.Parent() == lk && len(ret.Results) > 0 && constIsNil(asConst(stripValue(ret.Results[len(ret.Results)-1])))
+				}
+				if path, hit := reachEdge(edge{br.If.Block(), sl}, isNilRet, nil, nil); hit != nil {
+					swallowed = pathString(r.P, path)
+				}
+			}
+			r.check(swallowed == "", fmt.Sprintf("lookup:%s:error-is-an-error", short(cs.Name)), r.pos(cs.Instr), "from the error edge only returns with a non-nil error are reachable",
+				"after "+short(cs.Name)+" failed the lookup can answer `not found` without an error: a key that is present but unreadable is treated as never seen, the handler runs again within the key's lifetime and duplicates get different answers: "+swallowed)
+		}
+		r.atLeast("fallible steps of the lookup", n, 2)
 	})
 
 	r.rule("R5", "MemoryLock discipline (E2)", func() {
